@@ -22,6 +22,16 @@ CHECKS = {
   note="Rust typing of emitted shapes is a model (helper signatures, i64::pow, f64::powf); rustc is not run here. Tie: real parser -> TypeChecker expr_types, AstLowering IR types, determine_binop_plan, on exhaustive depth<=2 grids + random depth<=6; binding positions let/return/compound proved+tied, `argument` is a recorded finding (arguments are not type-checked).",
   technique="Lean 4 proof (structural induction over expression trees; finite table by cases) + correspondence with checker/lowering/emit-plan + documented-table oracle",
   ref="C07"),
+ "C08": dict(
+  text="Lean 4 theorem `roundtrip` over the whole expression ladder (or/and/not/9 comparison forms incl. two-token `not in`/range/additive/multiplicative/right-assoc power over unary/prefix -, await/postfix ?, indexing/primary, explicit Paren), for trees of any shape and depth the parser can produce: parse(fmt e) = e with nothing left over, for every sufficiently large fuel; corollary: the formatter is injective on producible trees. The model parser is one table-driven recursive descent mirroring the eleven parser functions; the model printer mirrors format_expr (never adds parentheses). Statements, declarations, patterns, types and literals have no model: for them AST preservation is decided by the oracle (real format_source + real parser, AST compared with spans erased).",
+  note="Token-level theorem; text->token lexing of printed output and everything outside the expression ladder are oracle-only. Tie: model parse = real parser (trees and rejections) and model fmt = real formatter output re-lexed, on seeded random expressions; oracle corpus: all repository .incn files + /verif/corpus/fmt construct files + random expressions.",
+  technique="Lean 4 proof (induction over producibility derivations, fuel-convergence calculus) + parser/formatter correspondence + AST-equality oracle",
+  ref="C08"),
+ "C09": dict(
+  text="Lean 4: idempotence of the formatter on the expression ladder (corollary of the C08 round trip, any depth); the general lemma that a round-tripping printer/parser pair is idempotent; the CLI decision logic of `incan fmt` stated outright and proved: --check/--diff never modify a file, after a rewriting run --check exits 0 iff the formatter is idempotent on that file, unparseable files are reported and untouched, check_formatted agrees with the CLI. Whole-file idempotence and text hygiene (one final newline, no tabs/trailing blanks outside literals) are decided by the oracle on the real formatter.",
+  note="CLI logic tied to the real format_files on real temp files (3 file kinds × 4 flag combinations, exhaustive). Hygiene/idempotence oracle over the same corpus as C08.",
+  technique="Lean 4 proof (corollary of round trip; decision-table theorems) + CLI correspondence + idempotence/hygiene oracle",
+  ref="C09"),
  "C10": dict(
   text="Lean 4 theorems about the lexer's layout machine (indent stack, pending dedents, at_line_start, bracket depth, comment/CR/blank-line branches), each quantified over every lexer state and every continuation, hence over every position of every file: trailing comments, trailing/interior blanks, blank lines, comment lines with any indentation, CR (CRLF), line breaks with any continuation indentation inside brackets leave the token stream unchanged; a final newline only adds the closing NEWLINE; re-indenting by any strictly increasing width map (2/4 spaces, tabs as 4 columns) yields the same INDENT/DEDENT structure. That the parser then builds the same tree (incl. the final-newline case) is decided by the oracle on the real parser.",
   note="Token scanning is atomic in the model (sources are cut at the real lexer's token spans); parser not modelled for this property. Tie: model token-kind stream = real lexer's on every repository .incn file, synthetic programs and all their edited variants; oracle: AST (spans erased) equal before/after 10 kinds of layout edit.",
